@@ -2,8 +2,10 @@ package props
 
 import (
 	"bytes"
+	"errors"
 	"fmt"
 	"hash"
+	"io"
 	"runtime"
 	"strings"
 	"sync"
@@ -18,6 +20,34 @@ import (
 
 // C18: pooled HMAC equals standard HMAC for every key, message and reuse history.
 func init() { core.Register("C18", c18) }
+
+// eofWithDataReader hands out its data in steps and returns the final error (io.EOF unless fail is set) TOGETHER with
+// the last bytes, as the io.Reader contract allows.
+type eofWithDataReader struct {
+	data []byte
+	step int
+	fail error
+}
+
+func (e *eofWithDataReader) Read(p []byte) (int, error) {
+	n := e.step
+	if n > len(p) {
+		n = len(p)
+	}
+	if n >= len(e.data) {
+		n = copy(p, e.data)
+		e.data = nil
+		if e.fail != nil {
+			return n, e.fail
+		}
+
+		return n, io.EOF
+	}
+	copy(p, e.data[:n])
+	e.data = e.data[n:]
+
+	return n, nil
+}
 
 func c18Key(r *gen.Rand, prevLong bool) []byte {
 	// alternate long / short / empty so that a recycled object carries the previous key's padded or marshaled state
@@ -171,8 +201,44 @@ func c18Program(r *gen.Rand, seen map[uintptr]int) (digests int, steps []string,
 					chunkBuf = append(chunkBuf[:0], chunk...)
 					chunk = chunkBuf
 				}
-				if _, err := h.Write(chunk); err != nil {
-					return digests, steps, "Write error: " + err.Error()
+				// the chunk reaches the hash the way writers are fed: Write, or the io helpers (which use whatever optional
+				// interfaces - io.ReaderFrom, io.StringWriter - the destination offers)
+				var (
+					wrote int64
+					err   error
+					via   = "Write"
+				)
+				switch r.Intn(9) {
+				case 0:
+					via = "io.Copy from a reader that returns its last bytes together with io.EOF"
+					wrote, err = io.Copy(h, &eofWithDataReader{data: chunk, step: 1 + r.Intn(700)})
+				case 1:
+					via = "io.WriteString"
+					var k int
+					k, err = io.WriteString(h, string(chunk))
+					wrote = int64(k)
+				case 2:
+					via = "io.Copy from a strings.Reader"
+					wrote, err = io.Copy(h, strings.NewReader(string(chunk)))
+				case 3:
+					via = "io.Copy from a reader that fails after its data"
+					wrote, err = io.Copy(h, &eofWithDataReader{data: chunk, step: 1 + r.Intn(700), fail: errors.New("connection reset")})
+					if err != nil && err.Error() == "connection reset" {
+						err = nil // the reader's error, after every byte was delivered
+					}
+				default:
+					var k int
+					k, err = h.Write(chunk)
+					wrote = int64(k)
+				}
+				if err != nil {
+					return digests, steps, via + " error: " + err.Error()
+				}
+				if wrote != int64(len(chunk)) {
+					return digests, steps, fmt.Sprintf("%s of a %d byte chunk reports %d bytes written", via, len(chunk), wrote)
+				}
+				if via != "Write" {
+					steps = append(steps, fmt.Sprintf("%dB via %s", len(chunk), via))
 				}
 				if streaming {
 					for k := range chunkBuf {
